@@ -219,7 +219,7 @@ int main(int argc, char** argv) {
         { static const int NC[] = {9, 10, 11, 12, 13, 14, 15, 16, 17, 18, 31, 32, 33, 63, 64, 65, 127, 128, 129}; static const int NG[] = {5, 6, 7, 8, 13, 14, 15, 16, 17, 31, 32, 33};
           for (int q = 0; q < (int)(sizeof NC / sizeof *NC) + (int)(sizeof NG / sizeof *NG); q++) { int wide = q < (int)(sizeof NC / sizeof *NC); tgen_t g2 = {8, 12, 0, -1, -1, -1, 0, wide ? 1 + (int)vrng_below(&R, 2) : NG[q - (int)(sizeof NC / sizeof *NC)], wide ? NC[q] : 1 + (int)vrng_below(&R, 3)};
               table_t* t = tbl_generate(&R, &g2); snprintf(tag, sizeof tag, "shape seed=%llu cols=%d row_groups=%d", (unsigned long long)seed, t->ncols, t->nrg); run_case(t, dir, 100000 + q, tag); v_count(wide ? "shape_sweep_wide_tables" : "shape_sweep_many_row_groups"); tbl_free(t); } }
-        codec_boundary_cases(dir, seed, scale >= 2 ? 600 : 120); lookalike_cases(dir, seed, scale >= 2 ? 60 : 12); level_run_cases(dir, seed, scale >= 2); create_close_only_case(dir, seed); refused_batch_case(dir, seed); if (scale >= 1) limits_cases(dir, scale >= 2); if (scale >= 2 && (seed % 1000) == 0) rows_beyond_32_bits_case(dir);   /* once per run: the first shard */
+        codec_boundary_cases(dir, seed, scale >= 2 ? 600 : 120); lookalike_cases(dir, seed, scale >= 2 ? 60 : 12); level_run_cases(dir, seed, scale >= 2); create_close_only_case(dir, seed); refused_batch_case(dir, seed); if (scale >= 1) limits_cases(dir, scale >= 2); if ((scale >= 2 || getenv("CQV_ROWS_2_31")) && (seed % 1000) == 0) rows_beyond_32_bits_case(dir);   /* once per run: the first shard */
         v_sample("gen: %lld random tables: 1..8 columns over 7 physical types x REQUIRED/OPTIONAL, 1..4 row groups, rows 0..400 (some up to 60000), 5 codecs, page_size {1,64,1024,65536,default}, batch partitions {single,1-row,small,random incl. 0-row,halving}, interleaved columns", (long long)cases);
     } else if (!strcmp(mode, "enum")) {
         /* all (null pattern x batch partition) pairs for one OPTIONAL column of n rows; all batch partitions for a boolean column */
